@@ -555,3 +555,74 @@ def layout_api(rng, name):
         api.add(f)
     api.info.update(pkg=pkg, version=ver, ns=ns, name=name, host=f"{name}.googleapis.com")
     return api
+
+
+def order_api(rng, name, same_short=False):
+    """Order-sensitive shapes (C10): many resources and references, equal sort
+    keys, many imports, several services, several retryable codes, LRO/paged."""
+    api = conventional(rng, name, {"version": "v1", "ns": ["vp"], "nfiles": 2, "exotic": True, "streams": True,
+                                   "foreign": rng.random() < 0.5})
+    tags = api.tags
+    pkg = api.info["pkg"]
+    P = "." + pkg
+    f = [x for x in api.files if x.pb.name.endswith(f"/{name}.proto")][0]
+    tf = [x for x in api.files if x.pb.name.endswith("_types.proto")][0]
+    # many resources, some only as file-level definitions, referenced from one request
+    doms = ["a", "b", "c", "zeta", "eta"]
+    refs = []
+    n = rng.randint(4, 9)
+    for i in range(n):
+        dom = rng.choice(doms)
+        short = rng.choice(["Foo", "Bar", "Baz", "Qux", "Quux"]) if not same_short else rng.choice(["Foo", "Foo", "Bar"])
+        t = f"{dom}.googleapis.com/{short}"
+        if t in refs:
+            continue
+        pats = [f"{dom}s/{{{dom}}}/{short.lower()}s/{{{short.lower()}}}"]
+        if rng.random() < 0.4:
+            pats.append(f"folders/{{folder}}/{short.lower()}s/{{{short.lower()}}}")
+        if rng.random() < 0.5:
+            f.resource_definition(t, *pats)
+        else:
+            m = tf.message(f"Res{i}{short}")
+            m.resource(t, *pats)
+            m.field("name", "string")
+        refs.append(t)
+    shorts = [t.split("/")[1] for t in refs]
+    if len(set(shorts)) < len(shorts):
+        tags.add("equal-resource-short-names")
+    q = f.message("LinkRequest")
+    q.field("name", "string", required=True)
+    order = list(refs)
+    rng.shuffle(order)
+    for i, t in enumerate(order):
+        q.field(f"ref_{i}", "string", ref=t) if rng.random() < 0.7 else q.field(f"ref_{i}", "string", child_ref=t)
+    for i in range(rng.randint(2, 5)):
+        q.field(f"wkt_{i}", ".google.protobuf." + rng.choice(WKT))
+    q.field("date", ".google.type.Date")
+    q.field("pos", ".google.type.LatLng")
+    q.field("status", ".google.rpc.Status")
+    svc = None
+    for fpb in [f.pb]:
+        svc = build.Svc(fpb.service[0], f)
+    svc.rpc("Link", P + ".LinkRequest", P + ".LinkRequest", http={"post": "/v1/{name=links/*}:link"}, body="*", sigs=["name"])
+    # retry config with many codes in shuffled order
+    codes = ["UNAVAILABLE", "DEADLINE_EXCEEDED", "ABORTED", "INTERNAL", "RESOURCE_EXHAUSTED", "UNKNOWN", "CANCELLED"]
+    names = []
+    for fb in api.files:
+        if fb.pb.name in api.targets:
+            for s in fb.pb.service:
+                for m in s.method:
+                    names.append({"service": f"{pkg}.{s.name}", "method": m.name})
+    rng.shuffle(names)
+    cfgs = []
+    for chunk in (names[: len(names) // 2], names[len(names) // 2:]):
+        if not chunk:
+            continue
+        cs = rng.sample(codes, rng.randint(2, 6))
+        cfgs.append({"name": chunk, "timeout": f"{rng.randint(5, 90)}s",
+                     "retryPolicy": {"initialBackoff": "0.1s", "maxBackoff": "10s", "backoffMultiplier": 1.3,
+                                     "retryableStatusCodes": cs}})
+    api.aux["retry-config"] = ("retry.json", json.dumps({"methodConfig": cfgs}, indent=1))
+    tags.add("retry-config")
+    api.options = ["transport=grpc+rest", "metadata", "autogen-snippets"]
+    return api
